@@ -344,6 +344,10 @@ impl<'a, 'tcx> BodyCx<'a, 'tcx> {
             }
             _ => {}
         }
+        // named constants (e.g. `Duration::ZERO`): keep the path of the item
+        if let MirConst::Unevaluated(u, _) = c.const_ {
+            o.push(("cdef", J::s(tcx.def_path_str(u.def))));
+        }
         // Evaluate
         let val: Option<ConstValue> = match c.const_ {
             MirConst::Val(v, _) => Some(v),
@@ -421,7 +425,19 @@ impl<'a, 'tcx> BodyCx<'a, 'tcx> {
                 ConstValue::ZeroSized => {
                     o.push(("zst", J::Bool(true)));
                 }
-                ConstValue::Indirect { .. } => {
+                ConstValue::Indirect { alloc_id, offset } => {
+                    // aggregate constants: record whether every byte is zero (Duration::ZERO, zeroed structs)
+                    if let Ok(layout) = tcx.layout_of(self.tenv.as_query_input(ty)) {
+                        let size = layout.size.bytes() as usize;
+                        if let Some(rustc_middle::mir::interpret::GlobalAlloc::Memory(a)) = tcx.try_get_global_alloc(alloc_id) {
+                            let a = a.inner();
+                            let start = offset.bytes() as usize;
+                            if size > 0 && start + size <= a.len() {
+                                let bytes = a.inspect_with_uninit_and_ptr_outside_interpreter(start..start + size);
+                                o.push(("allzero", J::Bool(bytes.iter().all(|b| *b == 0))));
+                            }
+                        }
+                    }
                     let is_str = matches!(ty.kind(), ty::Ref(_, inner, _) if inner.is_str());
                     if is_str {
                         if let Some(b) = v.try_get_slice_bytes_for_diagnostics(tcx) {
